@@ -97,7 +97,7 @@ PROPS = {
                 "total size limit-1 / limit / limit+1 / random (Content-Length or chunked) in a drawn segmentation, or a stall at a drawn point "
                 "(connect, request line, headers, body, between keep-alive requests) for a duration outside the band [T-0.3 s, T+0.8 s], or a chain of 3..6 prompt keep-alive requests whose idle gaps are each below the "
                 "time-out while the connection outlives it; " + NONTRIVIAL,
-        "probes_expected": ["size-limit-minus-1", "size-at-limit", "size-limit-plus-1", "size-over", "size-under", "several-workers-used", "chain-outlives-time-out"]
+        "probes_expected": ["wall-clock-stepped", "busy-worker", "size-limit-minus-1", "size-at-limit", "size-limit-plus-1", "size-over", "size-under", "several-workers-used", "chain-outlives-time-out"]
                            + ["stall-%s-%s" % (p, o) for p in ("connect", "line", "headers", "body", "between") for o in ("over", "under")],
         "assumptions": ["time-outs count from the moment the server starts expecting the request (connection accepted / previous request completed)",
                         "stall durations inside [T-0.3 s, T+0.8 s] are not judged (the half-second scan makes them undecidable)"],
